@@ -18,20 +18,37 @@ def gen_cases(rng, tier):
     n = 110 if tier == "quick" else 1800
     cases = []
     for gi in range(n):
-        b = EC.base_case(rng, p_deact=0.05, sev=False)
+        if gi % 4 == 3:
+            # a qualified property shape with a target of its own, selected WITHOUT its parent: its siblings still count
+            b = EC.base_case(rng, p_focused=1.0, tmpls=[lambda r_, n_, l_: S.tmpl_qualified(r_, n_, l_, easy=True, named_props=True)])
+        else:
+            b = EC.base_case(rng, p_deact=0.05, sev=False)
         b["data"].bind("ex", EX)
+        ont = None
+        if rng.random() < 0.3:
+            # an ontology that binds the data graph's namespace under another prefix (and says nothing the shapes look at):
+            # CURIEs in focus_nodes are written with the data graph's prefixes and must keep their meaning
+            ont = rdflib.Graph()
+            ont.bind("other", EX)
+            ont.add((EX.Unrelated, rdflib.RDF.type, rdflib.OWL.Class))
         iris = [x for x in b["nodes"] if isinstance(x, URIRef)]
         named = [s["id"] for s in b["shapes"] if isinstance(s["id"], URIRef)]
         Fs = rng.sample(iris, rng.randint(1, min(3, len(iris))))
         Us = rng.sample(named, rng.randint(1, min(2, len(named))))
+        if gi % 4 == 3:
+            qps = [x for x in named if "QPS" in str(x)]
+            if qps:
+                Us = rng.sample(qps, 1)
         for sel in ("F", "U", "FU"):
             o, meta = {}, {"F": [], "U": []}
             if "F" in sel:
                 meta["F"] = Fs
-                o["focus_nodes"] = [curie(x) if rng.random() < 0.3 else str(x) for x in Fs]
+                o["focus_nodes"] = [curie(x) if rng.random() < (0.7 if ont is not None else 0.3) else str(x) for x in Fs]
             if "U" in sel:
                 meta["U"] = Us
                 o["use_shapes"] = [str(x) for x in Us]
+            if ont is not None:
+                o["ont_graph"] = ont
             cases.append(dict(b, opts=o, group=gi, sel=meta))
     return cases
 
@@ -66,7 +83,7 @@ def rewritten(case):
 def metamorphic(cases, obs):
     bad = []
     for i, c in enumerate(cases):
-        ref = S.run_validate(c["data"], rewritten(c))
+        ref = S.run_validate(c["data"], rewritten(c), **({"ont_graph": c["opts"]["ont_graph"]} if "ont_graph" in c["opts"] else {}))
         o = obs[i]
         if o[0] != ref[0] or (o[0] == "err" and o[1] != ref[1]):
             bad.append((i, "selection gives %r but the target-rewritten shapes graph gives %r" % (o[:2], ref[:2])))
@@ -102,6 +119,33 @@ def rules_family(rng, n):
         if got[0] != ref[0] or (got[0] == "ok" and (got[1] != ref[1] or EC.keys(got) != EC.keys(ref))) or (got[0] == "err" and got[1] != ref[1]):
             fails.append({"what": "advanced mode: focus_nodes=F gives another report than the shapes graph whose targets (of rule shapes too) are narrowed to F",
                           "focus_nodes": [x.n3() for x in Fs], "shapes_ttl": sg.serialize(format="turtle"), "data_nt": sorted(" ".join(x.n3() for x in t) for t in data),
+                          "restricted_run": (got[1], EC.keys(got)) if got[0] == "ok" else got[:2], "reference": (ref[1], EC.keys(ref)) if ref[0] == "ok" else ref[:2]})
+    # use_shapes in advanced mode: shapes consulted by a selected shape are advanced as well (their sh:expression counts)
+    EXPR_TTL = """@prefix sh: <http://www.w3.org/ns/shacl#> . @prefix ex: <http://ex.org/> .
+ex:Sel a sh:NodeShape ; sh:targetClass ex:C0 ; sh:property [ sh:path ex:p ; sh:node ex:Nested ] ; sh:%(how)s .
+ex:Nested a sh:NodeShape ; sh:expression [ sh:path ex:flag ] .
+ex:Nested2 a sh:NodeShape ; sh:property [ sh:path ex:q ; sh:expression [ sh:path ex:flag ] ] .
+ex:OtherSel a sh:NodeShape ; sh:targetClass ex:C1 ; sh:expression [ sh:path ex:flag ] .
+"""
+    for _ in range(n):
+        data, nodes, lits = S.gen_typed_data(rng, n_iri=rng.randint(3, 5), n_bn=0, n_lit=1, n_triples=rng.randint(5, 10))
+        iris = [x for x in nodes if isinstance(x, URIRef)]
+        for x in iris:
+            if rng.random() < 0.7:
+                data.add((x, EX.flag, rdflib.Literal(rng.random() < 0.5)))
+        sg = rdflib.Graph().parse(data=EXPR_TTL % {"how": rng.choice(["node ex:Nested2", "not ex:Nested", "or ( ex:Nested ex:Nested2 )"])}, format="turtle")
+        Us = [EX.Sel]
+        Fs = rng.sample(iris, rng.randint(1, min(3, len(iris)))) if rng.random() < 0.5 else []
+        case = {"sg": sg, "data": data, "sel": {"F": Fs, "U": Us}}
+        ref = S.run_validate(data, rewritten(case), advanced=True)
+        kw = {"use_shapes": [str(u) for u in Us]}
+        if Fs:
+            kw["focus_nodes"] = [str(x) for x in Fs]
+        got = S.run_validate(data, sg, advanced=True, **kw)
+        stats["advanced_use_shapes_cases"] = stats.get("advanced_use_shapes_cases", 0) + 1
+        if got[0] != ref[0] or (got[0] == "ok" and (got[1] != ref[1] or EC.keys(got) != EC.keys(ref))) or (got[0] == "err" and got[1] != ref[1]):
+            fails.append({"what": "advanced mode: use_shapes (%s focus_nodes) gives another report than the shapes graph with the other shapes' targets removed" % ("with" if Fs else "without"),
+                          "options": kw, "shapes_ttl": sg.serialize(format="turtle"), "data_nt": sorted(" ".join(x.n3() for x in t) for t in data),
                           "restricted_run": (got[1], EC.keys(got)) if got[0] == "ok" else got[:2], "reference": (ref[1], EC.keys(ref)) if ref[0] == "ok" else ref[:2]})
     return stats, fails, []
 
